@@ -179,7 +179,7 @@ Definition do_cxx (j : json) : json :=
   | None => JObj [("ok", JBool false); ("err", JStr "no c")]
   end.
 
-Definition entry (j : json) : json :=
+Definition entry1 (j : json) : json :=
   match field_str "op" j with
   | Some op =>
       if String.eqb op "wgsl" then do_wgsl j
@@ -187,4 +187,64 @@ Definition entry (j : json) : json :=
       else if String.eqb op "cxx" then do_cxx j
       else JObj [("ok", JBool false); ("err", JStr "unknown op")]
   | None => JObj [("ok", JBool false); ("err", JStr "no op")]
+  end.
+
+(* ---- HLSL cbuffer struct definitions ----
+   htype: ["s"] | ["v",n] | ["m",rows,cols] | ["arr",h,n] | ["st",[[is_pad,h],...]]
+   result: ["l",size] | ["a",stride,n,sub] | ["s",size,[[is_pad,offset,sub],...]] *)
+Fixpoint htype_of (j : json) : option htype :=
+  match j with
+  | JArr (JStr k :: args) =>
+      if String.eqb k "s" then match args with [] => Some HS | _ => None end
+      else if String.eqb k "v" then match args with [JNum n] => Some (HV n) | _ => None end
+      else if String.eqb k "m" then match args with [JNum r; JNum c] => Some (HM r c) | _ => None end
+      else if String.eqb k "arr" then
+        match args with [e; JNum n] => option_map (fun e' => HA e' n) (htype_of e) | _ => None end
+      else if String.eqb k "st" then
+        match args with
+        | [JArr fs] =>
+            option_map HStruct
+              ((fix go (l : list json) : option (list (bool * htype)) :=
+                  match l with
+                  | [] => Some []
+                  | JArr [JBool p; c] :: r =>
+                      match htype_of c, go r with
+                      | Some c', Some r' => Some ((p, c') :: r')
+                      | _, _ => None
+                      end
+                  | _ => None
+                  end) fs)
+        | _ => None
+        end
+      else None
+  | _ => None
+  end.
+
+Fixpoint json_of_hlayout (h : htype) : json :=
+  match h with
+  | HA e n => JArr [JStr "a"; JNum (round_up 16 (hsize e)); JNum n; json_of_hlayout e]
+  | HStruct fs =>
+      JArr [JStr "s"; JNum (hsize h);
+            JArr ((fix go (l : list (bool * htype)) (offs : list Z) {struct l} : list json :=
+                     match l, offs with
+                     | (p, f) :: r, o :: ro => JArr [JBool p; JNum o; json_of_hlayout f] :: go r ro
+                     | _, _ => []
+                     end) fs (hoffsets 0 fs))]
+  | _ => JArr [JStr "l"; JNum (hsize h)]
+  end.
+
+Definition do_hlslcb (j : json) : json :=
+  match field "h" j with
+  | Some hj =>
+      match htype_of hj with
+      | Some h => JObj [("ok", JBool true); ("lay", json_of_hlayout h)]
+      | None => JObj [("ok", JBool false); ("err", JStr "bad htype")]
+      end
+  | None => JObj [("ok", JBool false); ("err", JStr "no h")]
+  end.
+
+Definition entry (j : json) : json :=
+  match field_str "op" j with
+  | Some op => if String.eqb op "hlslcb" then do_hlslcb j else entry1 j
+  | None => entry1 j
   end.
